@@ -373,15 +373,22 @@ def decide_harness(h, tier, prop=""):
         rel = [x for x in r["failed"] if x[1].startswith(prop + " ") or not lab.match(x[1]) or prop == "ALL"]
         other = sorted({x[1][:3] for x in r["failed"] if lab.match(x[1]) and not x[1].startswith(prop + " ")})
         rec["other_props_failing"] = other
+        lemma = None
         if not rel:
-            # the obligations of this property inside the harness were all discharged
-            rec["verdict"] = "holds"
-            rec["failed"] = []
-            return rec
+            if h.get("stage2", "no") != "pub" or not other:
+                # the obligations of this property inside the harness were all discharged
+                rec["verdict"] = "holds"
+                rec["failed"] = []
+                return rec
+            # A kernel shared with other properties fails an obligation labelled for another property.
+            # Such an obligation is a lemma of this property's composition argument too: take its
+            # counterexample and let the public-API monitor decide whether THIS property is affected.
+            lemma = other[0]
+            rel = [x for x in r["failed"] if x[1].startswith(lemma + " ")]
         rec["failed"] = [dict(check=a, desc=b, loc=c) for a, b, c in rel][:20]
         # counterexample for this property: rebuild with only its assertions active
         env2 = dict(ENV)
-        env2["SV_FOCUS"] = prop if prop != "ALL" else ""
+        env2["SV_FOCUS"] = (lemma or prop) if prop != "ALL" else ""
         log2 = os.path.join(LOGS, name + ".playback.log")
         rc2, out2, wall2 = run(kani_cmd(h, ["-Z", "concrete-playback", "--concrete-playback=print"]),
                                KANI_DIR, h["timeout"], h["mem"], log2, env=env2)
@@ -391,10 +398,11 @@ def decide_harness(h, tier, prop=""):
         if tape is None:
             rec["verdict"] = "cex-no-tape"
             return rec
-        nat = native_replay(name, tape, "debug", prop)
-        natr = native_replay(name, tape, "release", prop)
+        nat = native_replay(name, tape, "debug", lemma or prop)
+        natr = native_replay(name, tape, "release", lemma or prop)
         rec["native_debug"] = nat
         rec["native_release"] = natr
+        rec["lemma_of"] = lemma
         if nat.get("outcome") == "fail" or natr.get("outcome") == "fail":
             rec["verdict"] = "cex-reproduced"
         else:
@@ -498,7 +506,7 @@ def main():
             # stage 2 for harnesses that start from an internal state
             h = reg[r["harness"]]
             confirmed = True
-            if h.get("stage2", "no") == "pub":
+            if h.get("stage2", "no") == "pub" or r.get("lemma_of"):
                 pc = pubcheck(prop, nat.get("notes", {}))
                 r["pubcheck"] = pc
                 confirmed = pc.get("outcome") == "fail"
@@ -509,6 +517,12 @@ def main():
                         continue
             if confirmed:
                 violations.append(r)
+            elif r.get("lemma_of"):
+                # the other property's obligation fails, but no public-API failure of this property:
+                # not this property's violation (the other property's check reports it)
+                r["verdict"] = "holds"
+                r["note"] = "lemma of %s fails; no public-API failure for %s" % (r["lemma_of"], prop)
+                print("NOTE: %s: obligation of %s fails (reported by that property's check); no public-API failure for %s found" % (r["harness"], r["lemma_of"], prop))
             else:
                 inconclusive.append(r)
         elif v in ("vacuous", "unwind-too-small"):
